@@ -254,6 +254,68 @@ def opFieldsOK : Op → Bool
 
 def fieldsOK (G : Graph) : Bool := (List.range G.size).all (fun n => opFieldsOK (G.node n).op)
 
+/-! ## Out-parameter functions: one clone per value the activation stores through the parameter
+
+`janet_get_addrinfo(…, int *is_unix)` only ever does `*is_unix = constant`, and an activation stores at most one value (checked by
+the translator on the CFG).  The translator emits one graph function per case "stores v" / "stores nothing" (value 256), in
+which the stores of the other constants are `nop` nodes WITHOUT successors (an activation of that case never executes them), and
+the call becomes a fork to one arm per clone: `call clone_v; x := v` (`modeUpd` on the caller's guard variable).
+`outParamsOK` (per-run obligation `gen_outParams`) checks on the regenerated graph that nothing else distinguishes the clones:
+same events and same edges node by node, except that at a listed store of `c` exactly the clones for other values stop; that
+every stored constant and "nothing" has a clone; that every fork offers every clone of the family, each followed by the
+assignment of that clone's value to one guard field; and that no other node calls a clone. -/
+def relSuccs (G : Graph) (e j : Nat) : List Nat := (G.node (e + j)).succs.map (· - e)
+
+def storeAt (j : Nat) : List (Nat × Nat) → Option Nat
+  | [] => none
+  | (k, c) :: t => if k == j then some c else storeAt j t
+
+/-- node `j` of clone `(f, v)` against node `j` of the family's first clone `f0` -/
+def outNodeOK (G : Graph) (stores : List (Nat × Nat)) (f0 f v j : Nat) : Bool :=
+  let e0 := G.fnEntry f0
+  let e := G.fnEntry f
+  let b := G.node (e + j)
+  b.fn == f && b.succs.all (fun s => e ≤ s) &&
+  match storeAt j stores with
+  | some c => b.op == .nop && (v == c || b.succs == [])
+  | none => b.op == (G.node (e0 + j)).op && relSuccs G e j == relSuccs G e0 j
+
+def outFamilyOK (G : Graph) (fam : Nat × List (Nat × Nat) × List (Nat × Nat)) : Bool :=
+  match fam.2.1 with
+  | [] => false
+  | (f0, _) :: _ =>
+    fam.2.1.all (fun fv => (List.range fam.1).all (fun j => outNodeOK G fam.2.2 f0 fv.1 fv.2 j)) &&
+    fam.2.2.all (fun st => st.1 < fam.1 && st.2 < 256 && fam.2.1.any (fun fv => fv.2 == st.2)) &&
+    fam.2.1.any (fun fv => fv.2 == 256)
+
+/-- arm of a fork: `call f _`, and for a clone that stores `v` into a tracked guard variable at `off`: then `x := v` -/
+def outArmOK (G : Graph) (off : Nat) (fv : Nat × Nat) (a : Nat) : Bool :=
+  (match (G.node a).op with
+   | .call g _ => g == fv.1
+   | _ => false) &&
+  (off == 0 || fv.2 == 256 ||
+    match (G.node a).succs with
+    | [u] => (G.node u).op == .modeUpd (wordAll - (255 <<< off)) (fv.2 <<< off)
+    | _ => false)
+
+def outSiteOK (G : Graph) (fams : List (Nat × List (Nat × Nat) × List (Nat × Nat))) (site : Nat × Nat × Nat) : Bool :=
+  match fams[site.2.1]? with
+  | none => false
+  | some fam =>
+    (G.node site.1).op == .nop && (G.node site.1).succs.length == fam.2.1.length &&
+    (site.2.2 == 0 || (List.range 4).any (fun k => site.2.2 == 48 + 8 * k)) &&
+    (fam.2.1.zip (G.node site.1).succs).all (fun p => outArmOK G site.2.2 p.1 p.2)
+
+def outParamsOK (G : Graph) (fams : List (Nat × List (Nat × Nat) × List (Nat × Nat))) (sites : List (Nat × Nat × Nat)) : Bool :=
+  fams.all (outFamilyOK G) && sites.all (outSiteOK G fams) &&
+  -- a clone is called from the arms of the listed forks only
+  (List.range G.size).all (fun n =>
+    match (G.node n).op with
+    | .call g _ => !(fams.any (fun fam => fam.2.1.any (fun fv => fv.1 == g))) ||
+                   sites.any (fun site => (G.node site.1).succs.contains n)
+    | _ => true) &&
+  G.entries.all (fun f => !(fams.any (fun fam => fam.2.1.any (fun fv => fv.1 == f))))
+
 /-! ## Entry points = address-taken functions of the slice
 
 Functions of the *program* are identified by their position in the IR (`Gen.Sandbox.progFns`: id ↦ C name, definition
